@@ -33,7 +33,8 @@ COMPONENTS = {
     "stub": ["election", "voting system (CVR errors, lost CVRs, pooling)", "auditors (whole-population transcription with faults)"],
 }
 PROBES = ["pool contains phantom", "phantom outside pools", "style off with heterogeneous styles", "manual record lacks contest",
-          "unfindable card", "pooled batch", "super-majority", "IRV", "mean(B) <= 1/2 (assertion false on the paper)"]
+          "unfindable card", "pooled batch", "super-majority", "IRV", "mean(B) <= 1/2 (assertion false on the paper)",
+          "negative margin (CVRs contradict the reported outcome)"]
 
 
 def generate(rng, tier):
@@ -41,6 +42,13 @@ def generate(rng, tier):
     case = G.gen_case(rng, max_cards=cfg["max_cards"], max_rounds=1, audit_types=[(W.COMPARISON, 1), (W.ONEAUDIT, 1)],
                       homogeneous_when_style_off=False, p_shortfall=0.3)
     case["rounds"] = []
+    # the identity is about all CVR lists - also those that contradict the reported outcome (the library only warns)
+    if rng.chance(0.2):
+        for cid, cs in case["world"]["contests"].items():
+            if cs["choice_function"] == W.PLURALITY and cs["n_winners"] < len(cs["candidates"]) and rng.chance(0.6):
+                losers = [c for c in cs["candidates"] if c not in cs["winner"]]
+                cs["winner"] = [rng.pick(losers)] + list(cs["winner"])[1:]
+                case["wrong_winner"] = True
     tally_ok = all(c["choice_function"] in (W.PLURALITY, W.APPROVAL) for c in case["world"]["contests"].values())
     case["margins_via_tally"] = bool(tally_ok and rng.chance(0.35))
     return case
@@ -147,6 +155,17 @@ def execute(case):
                             f"{cid}/{key}: the overstatement assorter raised {e!r} on a (CVR, manual record) pair of the "
                             f"population (style={style}), so mean(B) does not exist")
                 continue
+            # the margin can also be asked for directly; both routes must give the v the identity uses
+            try:
+                with W.quiet():
+                    v2 = float(ns.Assertion.margin(asn, cvrs, use_style=style))
+                if not case.get("margins_via_tally") and not close(v2, v):
+                    out.violate("C03.a", f"margin-routes/{kind}/style={style}",
+                                f"{cid}/{key}: set_margin_from_cvrs stored v={v!r} but Assertion.margin over the same CVRs gives {v2!r}")
+            except Exception as e:
+                out.raised("Assertion.margin", e)
+            if v < 0:
+                out.probe("negative margin (CVRs contradict the reported outcome)")
             lhs = float(np.mean(B)) - 0.5
             rhs = (2 * float(np.mean(A)) - 1) / (2 * (2 * u - v))
             out.ev("identity", [cid, key, lhs, rhs])
